@@ -13,13 +13,15 @@ def exPort : TSpec :=
       { name := "address", ty := .set .str, unique := true, default := some (.set [.str "localhost"]) },
       { name := "timeout", ty := .sc .dur, default := some (.sc .none) } ] }
 
-def exSpec : Spec := { settings := [
+def exSettings : List Setting := [
   { name := "i", ty := .sc .int, default := .sc (.int 0) },
   { name := "d", ty := .sc .dur, default := .sc (.dur 10000000) },
   { name := "mem", ty := .sc .mem, default := .sc (.mem 1024) },
   { name := "ints", ty := .sc .int, setOf := true, default := .set [] },
   { name := "obj", ty := .obj exPort, default := .sc .none },
-  { name := "objs", ty := .obj exPort, setOf := true, default := .objs [] } ] }
+  { name := "objs", ty := .obj exPort, setOf := true, default := .objs [] } ]
+
+def exSpec : Spec := { settings := exSettings, types := [exPort] }
 
 theorem exPort_ok : TSpecOK exPort := by
   refine ⟨by decide, by decide, ?_⟩
@@ -33,9 +35,9 @@ theorem exPort_ok : TSpecOK exPort := by
 
 theorem exSpec_types (n : String) (t : TSpec) (h : exSpec.getType n = some t) : t = exPort := by
   unfold Spec.getType exSpec at h
-  simp [List.find?] at h
-  cases hb : (exPort.name == n) <;> simp [hb] at h
-  exact h.symm
+  simp at h
+  exact h.2.symm
+
 
 theorem exSpec_get (n : String) (s : Setting) (h : exSpec.get n = some s) : s ∈ exSpec.settings := by
   unfold Spec.get at h
